@@ -1004,6 +1004,11 @@ def main(chk: Check, replay: dict | None = None) -> int:
                              "c16_in * c16_obs", [c["coq"] for c in cases], "run", shard=60)
     for c in cases:
         c.pop("coq", None)
+    if codes is not None:
+        bad = [c for c, k in zip(cases, codes) if (k >> 2) & 1]
+        if bad:
+            chk.broken.append({"kind": "guard", "name": "reach (registration walk of the model) is not closed",
+                               "mismatches": len(bad), "first": {"input": bad[0]["input"], "obs": None}})
     chk.decide(cases, codes, {1: "F16a"},
                "Corr.C16.run: run_ops / serialize_top (model) = structure_from_dict / unstructure_to_dict / "
                "DataclassSerializer.serialize observed on real dataclasses")
